@@ -34,6 +34,14 @@ FOCI11 = [
 ]
 if N >= 11:
     FOCI = FOCI11
+FOCI13 = [
+ "error handling made 'more robust': retrying, ignoring or translating an error (temporary network errors, short writes, io.ErrShortWrite, context deadline), continuing where the code used to stop - or the reverse: giving up where it used to continue",
+ "a state-machine simplification: two flags merged into one, a state inferred from another field instead of being stored, an early return added, clean-up moved into a defer, a check hoisted out of a loop",
+ "numeric representation: int16/uint16/int32/int sizes and signedness, lengths computed differently (bytes vs runes, cap vs len), conversions, off-by-one at 0 / 1 / the maximum",
+ "ordering: something is written, flushed, invoked or recorded earlier or later than before, or moved across a boundary (before/after authentication, before/after ReadyForQuery, inside/outside a lock, before/after a callback returns)",
+]
+if N >= 13:
+    FOCI = FOCI13
 props = [json.loads(l) for l in open('/verif/properties.jsonl')]
 earlier = {}
 for f in sorted(glob.glob('/verif/seeded/*/meta.json')):
